@@ -73,6 +73,18 @@ Proof.
   exact (iterator_no_panic_raw l (pi_nodup _ _ I) (pinv_well_keyed _ _ I) o).
 Qed.
 
+(* ... where every entry it emits is an entry of the log, the
+   soundness half of the range theorem needs neither the closure of the log nor a total ordering, so it
+   holds on truncated and re-opened replicas too (Proofs/IterSound.v) *)
+From IpfsLog Require Import Proofs.IterSound.
+Theorem C15_emits_only_log_entries_in_every_history ops r l o es c :
+  owf ops -> nth_error (s_logs (run ops)) r = Some l ->
+  iterator l o = Ok (es, c) -> forall e, In e es -> In e (oslice (l_entries l)).
+Proof.
+  intros W L. destruct (osinv_run ops W) as [_ IL]. pose proof (IL r l L) as I.
+  apply iterator_sound. intros k e H. now apply (pi_heads _ _ I) in H.
+Qed.
+
 (* on success the output channel is closed - also for amount 0 *)
 Theorem C15_success_closes_channel l o es c : iterator l o = Ok (es, c) -> c = true.
 Proof. exact (iterator_closes l o es c). Qed.
@@ -108,3 +120,4 @@ Print Assumptions C15_amount_zero.
 Print Assumptions C15_unknown_upper_bound_is_error.
 Print Assumptions C15_nonvacuous.
 Print Assumptions C15_never_panics_in_every_history.
+Print Assumptions C15_emits_only_log_entries_in_every_history.
